@@ -529,6 +529,7 @@ func propC09(j *Job) {
 	for _, b := range bases[:2] { // (two clients complete each other's handshake without COOKIE-ACKs)
 		j.Explore(fmt.Sprintf("AH/%s", b.name), abortDuringConnectScenario(b.a, b.b), Budget{}, nil)
 		j.Explore(fmt.Sprintf("AS/%s", b.name), abortDuringShutdownScenario(b.a, b.b), Budget{D: 2}, nil)
+		j.Explore(fmt.Sprintf("AS/%s/close-fails", b.name), abortDuringShutdownScenario(b.a, b.b, true), Budget{}, nil)
 	}
 	// a blocking write made from the buffered-amount callback, ended by Close / Abort
 	for bi, b := range bases {
@@ -811,10 +812,17 @@ func abortDuringConnectScenario(a, b epCfg) *Scenario {
 // are lost) and is blocked in Shutdown, waiting in SHUTDOWN-PENDING, when the peer aborts.  The
 // Shutdown call - and, blockWrite, a write blocked behind the pending data - returns promptly
 // with an error that carries the abort cause: it is how this caller learns why.
-func abortDuringShutdownScenario(a, b epCfg) *Scenario {
+// closeFails: Close of the aborted side's transport returns an error (the transport is closed all
+// the same): the callers still learn the abort cause, not the transport's complaint.
+func abortDuringShutdownScenario(a, b epCfg, closeFails ...bool) *Scenario {
 	return &Scenario{
 		Name:    "abort-during-shutdown",
 		Horizon: 120 * time.Second,
+		Setup: func(m *Sim) {
+			if len(closeFails) > 0 && closeFails[0] {
+				m.W.closeErr[0] = errors.New("transport: close failed")
+			}
+		},
 		Body: func(m *Sim) {
 			if !m.Connect(a, b) {
 				m.Failf("connect", "handshake failed: %v %v", m.Err[0], m.Err[1])
@@ -836,6 +844,16 @@ func abortDuringShutdownScenario(a, b epCfg) *Scenario {
 				return false
 			}
 			_, _ = sa.WriteSCTP(payload(1, 0, 100), PayloadTypeWebRTCBinary)
+			var readErr error
+			tr := m.Go("readA", func() {
+				buf := make([]byte, 100)
+				for {
+					if _, _, err := sa.ReadSCTP(buf); err != nil {
+						readErr = err
+						return
+					}
+				}
+			})
 			var shutErr error
 			ts := m.Go("shutdownA", func() {
 				ctx, cancel := context.WithTimeout(context.Background(), 60*time.Second)
@@ -857,6 +875,13 @@ func abortDuringShutdownScenario(a, b epCfg) *Scenario {
 				if e := shutErr.Error(); !strings.Contains(e, "User Initiated Abort") || !strings.Contains(e, "why") {
 					m.Failf("abort.cause", "the Shutdown call of the side that received the ABORT failed with %q, which does not carry the abort cause", e)
 				}
+			}
+			if m.WaitUntil("reader-returned", 5*time.Second, func() bool { return tr.Done }) {
+				if e := fmt.Sprint(readErr); !strings.Contains(e, "User Initiated Abort") || !strings.Contains(e, "why") {
+					m.Failf("abort.cause", "the read blocked on the side that received the ABORT failed with %q, which does not carry the abort cause", e)
+				}
+			} else {
+				m.Failf("abort.peer", "the ABORT reached the side but its blocked read has not returned 5 s later")
 			}
 			m.W.killFn = nil
 			m.CloseBoth()
